@@ -45,7 +45,7 @@ def drop_process_publications(run, p, kinds=('PROCESS',), only_states=None):
         if args[0] != 'SupvisorsPublication':
             return None
         origin, (header, body) = json.loads(args[1])
-        if header != 1:   # PublicationHeaders.PROCESS
+        if header != 1 or body.get('forced'):   # PublicationHeaders.PROCESS, real events only
             return None
         if only_states is not None and body.get('state') not in only_states:
             return None
